@@ -967,7 +967,7 @@ func c08CrossTrafficWhileJoining(w *core.WorkerCtx) {
 			net.Close()
 			continue
 		}
-		net.WaitStable(6)
+		net.WaitSent()
 		done := make(chan struct{})
 		go func() {
 			defer close(done)
